@@ -6,6 +6,8 @@ package main
 
 import (
 	"fmt"
+	"os"
+	"regexp"
 	"go/ast"
 	"go/token"
 	"go/types"
@@ -59,6 +61,10 @@ type Exec struct {
 	recDepth map[string]int
 	recDone  map[*Term]bool
 	absDivs  map[*Term]bool
+	ptrTags map[string]int64
+	ptrTagDone map[*Term]bool
+	memBound   map[string]*Term // havoc-created memory symbol (or epoch prefix) -> allocation counter when it was created
+	pendingSyms []string
 	mapTags  map[string]int64
 	entryAlloc *Term
 	pendingSelfType types.Type
@@ -629,7 +635,14 @@ func (fr *Frame) enterCutLoop(n *unode, l *Loop, s *State, g *Term, phis []*ssa.
 	if fr.spec {
 		panic(fmt.Sprintf("loop in pure/spec function %s (loops need 'unroll' there)", fr.key))
 	}
-	// 1. invariant holds on entry
+	// 1. invariant holds on entry (loop lemmas are available for that, instantiated at the entry state)
+	if fr.contract != nil && l.Ordinal > 0 && len(invs) > 0 {
+		for _, lm := range fr.contract.LoopLemmas[l.Ordinal] {
+			if lm.Label == "init" { // `loop N lemma[init] F(args)`: also instantiated at the entry state
+				fr.applyLemma(lm, s, g, l, nil)
+			}
+		}
+	}
 	for i, inv := range invs {
 		t := fr.evalClauseAt(inv, s, l, nil)
 		fr.oblige("invariant-init", loopLabel(l, inv, i), inv.Pos, g, t, inv.Text)
@@ -663,6 +676,7 @@ func (fr *Frame) enterCutLoop(n *unode, l *Loop, s *State, g *Term, phis []*ssa.
 		x.assume(g, c.IntCmp(">=", na, pre.alloc))
 		s.alloc = na
 	}
+	x.bindHavocBound(s.alloc)
 	// 3. assume invariant
 	for _, inv := range invs {
 		t := fr.evalClauseAt(inv, s, l, nil)
@@ -719,6 +733,7 @@ func (fr *Frame) unrolledCut(n *unode, l *Loop, s *State, g *Term, phis []*ssa.P
 		x.assumeWF(g, s.regs[phi], phi.Type(), s)
 	}
 	fr.havocTargets(s, pre, fr.loopWriteSet(l), g)
+	x.bindHavocBound(s.alloc)
 	for _, inv := range invs {
 		x.assume(g, fr.evalClauseAt(inv, s, l, extra))
 	}
@@ -1050,6 +1065,7 @@ func (fr *Frame) havocTargets(s, pre *State, targets []target, g *Term) {
 		case "all":
 			s.mem = map[string]*Term{}
 			s.ep = newEpoch()
+			x.pendingSyms = append(x.pendingSyms, fmt.Sprintf("mem%d", s.ep.id))
 			// ghost state is changed by contracts only; unknown code cannot touch it.
 			// The ghost wall clock may have advanced (time only moves forward).
 			if old, ok := s.ghost["$clock"]; ok {
@@ -1081,6 +1097,7 @@ func (fr *Frame) havocTargets(s, pre *State, targets []target, g *Term) {
 		old := x.memByKey(s, k)
 		if whole {
 			s.mem[k] = c.Fresh("mem_"+k, old.sort)
+			x.pendingSyms = append(x.pendingSyms, s.mem[k].name)
 			continue
 		}
 		if cellsOnly {
@@ -1093,6 +1110,7 @@ func (fr *Frame) havocTargets(s, pre *State, targets []target, g *Term) {
 			continue
 		}
 		nm := c.Fresh("mem_"+k, old.sort)
+		x.pendingSyms = append(x.pendingSyms, nm.name)
 		r := c.BVar("r", SRef)
 		in := fr.inTargets(r, ts)
 		x.assume(g, c.Forall([]*Term{r}, c.Or(in, c.IntCmp(">=", c.RRoot(r), pre.alloc), c.Eq(c.Select(nm, r), c.Select(old, r))), c.Select(nm, r)))
@@ -1251,6 +1269,15 @@ func (x *Exec) assumeWF(g *Term, v *Term, t types.Type, st *State) {
 		}
 		if base.op == "var" && (strings.HasPrefix(base.name, "mem0_")) && base != v {
 			bound = x.entryAlloc
+		} else if base.op == "var" && base != v {
+			// memory created by a havoc (call, loop cut): what it holds existed when the havoc ended
+			key := base.name
+			if m := epochNameRe.FindStringSubmatch(key); m != nil {
+				key = m[1]
+			}
+			if b, ok := x.memBound[key]; ok {
+				bound = b
+			}
 		}
 	}
 	switch v.sort {
@@ -1261,6 +1288,7 @@ func (x *Exec) assumeWF(g *Term, v *Term, t types.Type, st *State) {
 			c.Implies(c.Eq(c.SlPtr(v), c.Null()), c.Eq(c.SlCap(v), c.BV(0, 64)))))
 	case SRef:
 		x.assume(g, c.IntCmp("<", c.RRoot(v), bound))
+		x.ptrTag(v, t)
 	case SStr:
 		x.assume(g, c.BVCmp("bvule", c.StrLen(v), c.BV(1<<56, 64)))
 	case "Addr":
@@ -1283,3 +1311,124 @@ func (x *Exec) assumeWF(g *Term, v *Term, t types.Type, st *State) {
 		}
 	}
 }
+
+// ptrTag: a non-nil pointer of static type *E addresses a location of type E, so pointers (and field or element
+// addresses) with different pointee types never alias. Stated once per address through an uninterpreted tag.
+// Generic named types are tagged by their origin (type arguments ignored); pointee types that mention a type
+// parameter are not tagged. Not valid across unsafe casts that reinterpret memory at the same path (none of the
+// functions under contract does that: casts through unsafe.Pointer are followed by field addressing, which has its own path).
+func (x *Exec) ptrTag(v *Term, t types.Type) {
+	if t == nil || v.open {
+		return
+	}
+	p, ok := types.Unalias(t).Underlying().(*types.Pointer)
+	if !ok {
+		return
+	}
+	x.ptrTagElem(v, p.Elem())
+}
+
+func mentionsTypeParam(t types.Type, depth int) bool {
+	if depth > 6 {
+		return true
+	}
+	switch u := types.Unalias(t).(type) {
+	case *types.TypeParam:
+		return true
+	case *types.Named:
+		return false // tagged by origin
+	case *types.Pointer:
+		return mentionsTypeParam(u.Elem(), depth+1)
+	case *types.Slice:
+		return mentionsTypeParam(u.Elem(), depth+1)
+	case *types.Array:
+		return mentionsTypeParam(u.Elem(), depth+1)
+	case *types.Map:
+		return mentionsTypeParam(u.Key(), depth+1) || mentionsTypeParam(u.Elem(), depth+1)
+	case *types.Chan:
+		return mentionsTypeParam(u.Elem(), depth+1)
+	case *types.Struct:
+		for i := 0; i < u.NumFields(); i++ {
+			if mentionsTypeParam(u.Field(i).Type(), depth+1) {
+				return true
+			}
+		}
+		return false
+	case *types.Basic, *types.Interface:
+		return false
+	}
+	return true
+}
+
+func (x *Exec) ptrTagElem(v *Term, elem types.Type) {
+	if v.open {
+		return
+	}
+	f := x.ptrTagFormula(v, elem)
+	if f == nil {
+		return
+	}
+	if x.ptrTagDone == nil {
+		x.ptrTagDone = map[*Term]bool{}
+	}
+	if x.ptrTagDone[f] {
+		return
+	}
+	x.ptrTagDone[f] = true
+	x.assumeRaw(f)
+}
+
+// ptrTagFormula: "v is nil or addresses a location of type elem" (nil when elem is not taggable).
+func (x *Exec) ptrTagFormula(v *Term, elem types.Type) *Term {
+	if elem == nil || v.sort != SRef || os.Getenv("GOVC_NOPTRTAG") != "" {
+		return nil
+	}
+	var k string
+	switch n := types.Unalias(elem).(type) {
+	case *types.Named:
+		o := n.Origin().Obj()
+		if o.Pkg() != nil {
+			k = o.Pkg().Path() + "." + o.Name()
+		} else {
+			k = o.Name()
+		}
+	case *types.Basic:
+		k = fmt.Sprintf("basic%d", n.Kind()) // byte and uint8 (rune and int32) are one type
+	default:
+		if mentionsTypeParam(elem, 0) {
+			return nil
+		}
+		k = aliasWordRe.ReplaceAllStringFunc(types.TypeString(types.Unalias(elem), nil), func(w string) string {
+			if w == "byte" {
+				return "uint8"
+			}
+			return "int32"
+		})
+	}
+	c := x.c
+	if x.ptrTags == nil {
+		x.ptrTags = map[string]int64{}
+	}
+	id, ok := x.ptrTags[k]
+	if !ok {
+		id = int64(len(x.ptrTags) + 1)
+		x.ptrTags[k] = id
+	}
+	return c.Implies(c.Neq(v, c.Null()), c.Eq(c.UF("ptrtag", SInt, v), c.Int(id)))
+}
+
+var epochNameRe = regexp.MustCompile(`^(mem[0-9]+)_`)
+
+// bindHavocBound: the memory symbols created by the havoc that just ended hold only references to objects that
+// existed when it ended (allocation counter alloc).
+func (x *Exec) bindHavocBound(alloc *Term) {
+	if x.memBound == nil {
+		x.memBound = map[string]*Term{}
+	}
+	for _, n := range x.pendingSyms {
+		x.memBound[n] = alloc
+	}
+	x.pendingSyms = nil
+}
+
+var aliasWordRe = regexp.MustCompile(`\b(byte|rune)\b`)
